@@ -9,14 +9,16 @@ L1_TRUST = ['L1 model (coq/theories/L1/Model.v): control skeleton hand-written, 
 
 CORR_L1 = {'profiles': [prof('corpus', (0, 6), (0, 40)), prof('core', (40, 5), (600, 10)), prof('sync', (30, 5), (400, 10)), prof('try', (30, 5), (400, 10)), prof('pool', (40, 5), (400, 10))]}
 
+L2_TRUST = ['L2 model (coq/theories/L2/Model.v): ONE queue with futures, three runner contexts and in-flight wakes, hand-written; the pool abstracted as runners that may take a scheduled queue (hand-over justified by L1: L-quiet/C10 matching invariant); sync_background reduced to a blocking wait; tied by the generated waker/poll tables and facts and by the wake-position sweeps - no log replay for this layer yet']
+
 PROPS = {
     'C01': {
         'correspondence': CORR_L1,
-        'coq': ['theories/Props/C01.vo', 'theories/Inst/C01_now.vo'],
+        'coq': ['theories/Props/C01.vo', 'theories/Inst/C01_now.vo', 'theories/L2/PropsC01.vo', 'theories/L2/Inst.vo'],
         'profiles': [prof('core', (60, 15), (1500, 60)), prof('sync', (40, 15), (800, 60)), prof('fut', (50, 15), (1000, 60)), prof('fsync', (30, 10), (600, 40)), prof('pipein', (20, 10), (400, 40), extra=['--max-steps', '30000']), prof('sweep:overlap_sweep.progs', (0, 2), (0, 12))],
         'monitors': ['C01'], 'liveness': False, 'panics': False,
         'trusted_base': L1_TRUST,
-        'assumptions': ['future-based operations are covered by the run-time occupancy monitor only, not yet by a theorem'],
+        'assumptions': ['L1: all programs of desync/sync/try_sync on any number of objects; L2: one queue with future-based operations, exclusive across awaits (the suspended operation stays in the runner\'s hand or at the head of the queue)'],
     },
     'C03': {
         'correspondence': CORR_L1,
@@ -28,19 +30,19 @@ PROPS = {
     },
     'C02': {
         'correspondence': CORR_L1,
-        'coq': ['theories/L1h/PropsC02.vo', 'theories/L1h/Inst.vo', 'theories/L1r/PropsObjExec.vo', 'theories/L1r/Inst.vo'],
+        'coq': ['theories/L1h/PropsC02.vo', 'theories/L1h/Inst.vo', 'theories/L1r/PropsObjExec.vo', 'theories/L1r/Inst.vo', 'theories/L2/PropsC02.vo', 'theories/L2/Inst.vo'],
         'profiles': [prof('core', (60, 15), (1500, 60)), prof('sync', (40, 15), (800, 60)), prof('fut', (40, 15), (800, 40)), prof('fsync', (30, 10), (600, 40)), prof('sweep:overlap_sweep.progs', (0, 2), (0, 12))],
         'monitors': ['C02'], 'liveness': False, 'panics': False,
         'trusted_base': L1_TRUST + ['L1h: history observer over the unmodified L1 step function'],
-        'assumptions': ['the theorem covers desync/sync/try_sync (layer L1); the order of future-based operations is covered by the run-time order oracle only until the L2 layer is finished'],
+        'assumptions': ['L1 (history theorem, ObjExec refinement) for desync/sync/try_sync; L2 (pushes = starts ++ pending) for future-based operations on one queue'],
     },
     'C04': {
         'correspondence': CORR_L1,
-        'coq': ['theories/Props/C04.vo', 'theories/Inst/C04_now.vo', 'theories/L1h/PropsC04.vo', 'theories/L1h/Inst.vo', 'theories/L1b/PropsLbound.vo', 'theories/L1b/Inst.vo'],
+        'coq': ['theories/Props/C04.vo', 'theories/Inst/C04_now.vo', 'theories/L1h/PropsC04.vo', 'theories/L1h/Inst.vo', 'theories/L1b/PropsLbound.vo', 'theories/L1b/Inst.vo', 'theories/L1z/PropsC04zero.vo', 'theories/L1z/Inst.vo'],
         'profiles': [prof('sync', (80, 20), (2000, 80)), prof('core', (40, 10), (800, 40)), prof('pool', (30, 10), (600, 40)), prof('fut', (40, 15), (800, 60), extra=['--max-pool', '1'])],
         'monitors': ['C04'], 'liveness': True, 'panics': True,
         'trusted_base': L1_TRUST,
-        'assumptions': ['returns-for-pool-size-0 is exercised under the controlled runtime only (theorem C04_sync_returns_pool_partial needs a maximum >= 1); nested sync from inside jobs is exercised by the profiles, not modelled'],
+        'assumptions': ['C04_full (any pool maximum incl. 0) is proved for layer L1 (operations that do not suspend); sync on a queue suspended on a future is covered by L2\'s terminal theorem (pool >= 1) and by the profiles; nested sync from inside jobs is exercised by the profiles, not modelled'],
     },
     'C05': {
         'correspondence': CORR_L1,
@@ -49,6 +51,20 @@ PROPS = {
         'monitors': ['C05'], 'liveness': True, 'panics': True,
         'trusted_base': L1_TRUST + ['drop is modelled as what the code does: a final sync whose closure frees the value (fact drop_is_sync_free)'],
         'assumptions': ['freed-exactly-once and no-use-after-free are observed by the payload monitors (drop counter, dead flag) on the real crate; the theorem gives the ordering that makes them true'],
+    },
+    'C06': {
+        'coq': ['theories/L2/PropsC06.vo', 'theories/L2/Inst.vo', 'theories/L2/Examples.vo'],
+        'profiles': [prof('sweep:wake_sweep.progs', (0, 3), (0, 30)), prof('fut', (60, 15), (1500, 60)), prof('susp', (30, 10), (600, 40))],
+        'monitors': ['C06', 'C03', 'C07', 'C04'], 'liveness': True, 'panics': True,
+        'trusted_base': L2_TRUST,
+        'assumptions': ['PARTIAL: the no-lost-wake invariant (all three runner contexts, any event timing, stale wakers) and the terminal theorem with >= 1 pool runner are proved; the variant with ZERO pool runners (C06_zero_pool_full in L2/Main.v) is only stated - it is exercised by the wake sweeps with pool 0'],
+    },
+    'C07': {
+        'coq': ['theories/L2/PropsC07.vo', 'theories/L2/Inst.vo'],
+        'profiles': [prof('fut', (100, 20), (2500, 60)), prof('sweep:wake_sweep.progs', (0, 2), (0, 12))],
+        'monitors': ['C07', 'C03'], 'liveness': True, 'panics': True,
+        'trusted_base': L2_TRUST,
+        'assumptions': ['PARTIAL: proved - a result is resolved at most once, only after the operation signalled, with its own value; no would-panic state is reachable; poll stores the task waker in the critical section in which it found the result missing and signal takes and calls it; detached/dropped operations still run (C06 terminal theorem, pool >= 1). Not proved: the global statement that every awaiting caller has finished in a terminal state (C07_complete_full, one stack-shape invariant missing); it is exercised by the future profile'],
     },
     'C08': {
         'coq': ['theories/SyncFut/PropsC08.vo', 'theories/Inst/C08_now.vo'],
@@ -96,6 +112,13 @@ PROPS = {
         'monitors': ['C16', 'C12', 'C05'], 'liveness': True, 'panics': True,
         'trusted_base': ['Pipe model (coq/theories/Pipe/Model.v), see C12'],
         'assumptions': ['"released" = poll_fn is None OR nothing references the PipeContext any more (with the drop landing on a throttled producer the input stream and closure are freed by reference counting, never by poll_fn := None; the literal reading is refuted in PropsC16.v)'],
+    },
+    'C13': {
+        'coq': ['theories/L2/PropsC13.vo', 'theories/L2/Inst.vo'],
+        'profiles': [prof('susp', (100, 20), (2500, 60))],
+        'monitors': ['C13', 'C02', 'C04'], 'liveness': True, 'panics': True,
+        'trusted_base': L2_TRUST + ['suspend is modelled as what the code does: a future operation that signals the resumer future first and then awaits the resume event'],
+        'assumptions': ['state form: while the suspend operation is parked on the resume event, everything pushed before it has finished and nothing pushed after it has started, and this persists until the event fires; continuation in order afterwards is C06 (pool >= 1) + C02; the harness runs suspend through the scheduler-level API on plain queues'],
     },
     'C14': {
         'correspondence': CORR_L1,
